@@ -1,0 +1,22 @@
+//go:build verif
+
+package v2
+
+// Contracts for the verification framework in /verif (comment-only file; compiled
+// only with -tags verif, where it contributes nothing but these comments).
+
+//@ // ---- C16: the v1.0.1 -> v1.1.0 store migration keeps every pool's locked amount and withdrawn history ----
+//@ // old format: Vested (initially locked), Withdrawn, and the two "last modification" counters whose difference was the locked amount
+//@ func setNewAccountVestingPools(store, cdc, oldAccPools) (err)
+//@   requires forall a: int, j: int :: {oldAccPools[a].VestingPools[j]} 0 <= a && a < len(oldAccPools) && 0 <= j && j < len(oldAccPools[a].VestingPools) ==> oldAccPools[a].VestingPools[j] != nil
+//@     && !oldAccPools[a].VestingPools[j].Vested.IsNil() && !oldAccPools[a].VestingPools[j].Withdrawn.IsNil()
+//@     && !oldAccPools[a].VestingPools[j].LastModificationVested.IsNil() && !oldAccPools[a].VestingPools[j].LastModificationWithdrawn.IsNil()
+//@   modifies $kvHas, $kvVal
+//@   prop C16
+//@ loop setNewAccountVestingPools#2
+//@   invariant 0 <= \i && \i <= len(oldPools) && len(newPools) == \i && off(newPools) == 0
+//@   invariant forall j: int :: {newPools[j]} 0 <= j && j < \i ==> newPools[j] != nil && newPools[j].Name == oldPools[j].Name
+//@     && newPools[j].LockStart == oldPools[j].LockStart && newPools[j].LockEnd == oldPools[j].LockEnd
+//@     && newPools[j].InitiallyLocked == oldPools[j].Vested && newPools[j].Withdrawn == oldPools[j].Withdrawn
+//@     // new locked = initially locked - sent - withdrawn equals the old locked amount
+//@     && newPools[j].InitiallyLocked - newPools[j].Sent - newPools[j].Withdrawn == oldPools[j].LastModificationVested - oldPools[j].LastModificationWithdrawn
